@@ -28,10 +28,10 @@ class SgraphFromSelectorsTripleYielder(BaseTriplesYielder):
 
 
     def _collect_every_target_node(self):
-        result = set()
+        result = {}  # dict instead of set: no repetitions, but the order of the answers is kept (deterministic)
         for an_item in self._shape_map.yield_items():
             for a_node in an_item.node_selector.get_target_nodes():
-                result.add(a_node)
+                result[a_node] = None
         return list(result)
 
 
